@@ -754,3 +754,31 @@ package raft
 // nothing is released (neither locally nor to a remote requester) before a quorum has confirmed
 //@ ensures !old(mk(pb.SystemCtx, m.Hint, m.HintHigh) in r.readIndex.pending) ==> len(r.readyToRead) == old(len(r.readyToRead)) && len(r.msgs) == old(len(r.msgs))
 //@ loop 1 invariant len(r.readyToRead) + len(r.msgs) <= old(len(r.readyToRead)) + old(len(r.msgs)) + $i + 1 && len(r.readyToRead) >= old(len(r.readyToRead)) && len(r.msgs) >= old(len(r.msgs))
+
+// L1 (log matching on the follower): entries are appended only after the (index, term) check,
+// the acknowledged and committed index never exceed what this message verified.
+//@ func (r *raft) handleReplicateMessage [C02 C19]
+//@ noframe
+//@ requires r.wf()
+//@ requires len(m.Entries) > 0 ==> consecutive(m.Entries) && m.Entries[0].Index == m.LogIndex + 1 && m.LogIndex < MaxUint64
+//@ modifies r.log.inmem.markerIndex, r.log.inmem.shrunk, r.log.inmem.entries, r.log.inmem.savedTo, elems(r.log.inmem.entries[len(r.log.inmem.entries):]), r.log.committed
+//@ modifies r.msgs, elems(r.msgs[len(r.msgs):])
+//@ ensures result == nil ==> len(r.msgs) == old(len(r.msgs)) + 1 && r.msgs[len(r.msgs) - 1].Type == pb.ReplicateResp && r.msgs[len(r.msgs) - 1].To == m.From
+// stale message: answered with the commit index, log untouched
+//@ ensures result == nil && m.LogIndex < old(r.log.committed) ==> r.msgs[len(r.msgs) - 1].LogIndex == old(r.log.committed) && !r.msgs[len(r.msgs) - 1].Reject &&
+//@    r.log.committed == old(r.log.committed) && r.log.lastIdx() == old(r.log.lastIdx())
+// mismatch: rejected, nothing appended, nothing committed
+//@ ensures result == nil && m.LogIndex >= old(r.log.committed) && r.msgs[len(r.msgs) - 1].Reject ==> old(r.log.termAt(m.LogIndex)) != m.LogTerm &&
+//@    r.log.committed == old(r.log.committed) && r.log.lastIdx() == old(r.log.lastIdx()) && r.msgs[len(r.msgs) - 1].LogIndex == m.LogIndex
+// match: acknowledged index = last verified index, commit never beyond it
+//@ ensures result == nil && m.LogIndex >= old(r.log.committed) && !r.msgs[len(r.msgs) - 1].Reject ==> old(r.log.termAt(m.LogIndex)) == m.LogTerm &&
+//@    r.msgs[len(r.msgs) - 1].LogIndex == m.LogIndex + len(m.Entries) &&
+//@    r.log.committed == max(old(r.log.committed), min(m.LogIndex + len(m.Entries), m.Commit)) && r.log.committed <= max(old(r.log.committed), m.LogIndex + len(m.Entries))
+//@ ensures r.log.committed >= old(r.log.committed)
+
+//@ func (r *raft) handleHeartbeatMessage [C02]
+//@ noframe
+//@ requires r.wf()
+//@ modifies r.log.committed, r.msgs, elems(r.msgs[len(r.msgs):])
+//@ ensures r.log.committed == max(old(r.log.committed), m.Commit) && m.Commit <= r.log.lastIdx()
+//@ ensures len(r.msgs) == old(len(r.msgs)) + 1 && r.msgs[len(r.msgs) - 1].Type == pb.HeartbeatResp && r.msgs[len(r.msgs) - 1].Hint == m.Hint && r.msgs[len(r.msgs) - 1].HintHigh == m.HintHigh
